@@ -170,11 +170,11 @@ func cmdCheck(args []string) int {
 	active, known := loadKnown(*verif, *prop)
 	cfg := &RunConfig{
 		Tier: *tier, StepBudget: 3_000_000, DepthBudget: 2000, Workers: *workers,
-		SolverName: *solver, TimeoutMs: 20000, MaxPaths: *maxPaths, KnownActive: active, Progress: *verbose,
+		SolverName: *solver, TimeoutMs: 60000, MaxPaths: *maxPaths, KnownActive: active, Progress: *verbose,
 	}
 	if *tier == "thorough" {
 		cfg.StepBudget = 20_000_000
-		cfg.TimeoutMs = 60000
+		cfg.TimeoutMs = 120000
 	}
 	if *timeout > 0 {
 		cfg.Deadline = time.Now().Add(*timeout)
